@@ -2321,6 +2321,8 @@ def chain_child(scope):
     # previous failed branches are forgiven as the
     # scope is re-wired into a new stack
     del nxt_in_chain.maps[0][CHILD_ERRORS][:]
+    # a mode set by the previous step (Fill, Match, ...) applies to that step only
+    nxt_in_chain.maps[0][MODE] = scope.maps[0][MODE]
     return nxt_in_chain
 
 
